@@ -511,3 +511,170 @@ def check_entries(r, spec, n, ref, prefix):
 def spec_op_keeps_trailing_names(_v):
     # view/reshape erase names by design (dims are re-cut); checked by the caller through expected_names
     return False
+
+
+# --------------------------------------------------------------------------- extended ops (oracle only, not modelled)
+def build_offset(spec, off):
+    """like build(), every leaf shifted by `off` (distinguishes the operands of stack/cat)"""
+    from tensordict import TensorDict
+    _, bs, names, entries = spec
+    src = {}
+    for k, e in entries:
+        if e[0] == "leaf":
+            src[k] = torch.arange(numel(e[1]), dtype=torch.int64).reshape(e[1]) + off
+        else:
+            src[k] = build_offset(e, off)
+    return TensorDict(src, batch_size=list(bs), names=None if names is None else list(names))
+
+
+def resize_dim(spec, d, size):
+    """the same tree with batch dim `d` (of every node and leaf) set to `size`"""
+    if spec[0] == "leaf":
+        s = list(spec[1]); s[d] = size
+        return ("leaf", tuple(s))
+    _, bs, names, entries = spec
+    b = list(bs); b[d] = size
+    return ("node", tuple(b), names, [(k, resize_dim(e, d, size)) for k, e in entries])
+
+
+def gen_ext(rng):
+    """one case of the ops the model does not cover: (kind, specs, args)"""
+    kind = rng.choice(["repeat", "repeat_interleave", "gather", "masked_select", "stack", "cat", "stack_out", "cat_out"])
+    rank = rng.choice([0, 1, 2, 2, 3, 3, 4]) if kind in ("stack", "stack_out", "repeat") else rng.choice([1, 2, 2, 3, 3, 4])
+    bs = tuple(rng.choice(DIMS if rng.random() < 0.35 else (1, 2, 3)) for _ in range(rank))
+    spec = gen_tree(rng, bs, named=rng.random() < 0.45, allow_empty=False)
+    n = rank
+    if kind == "repeat":
+        return kind, [spec], (tuple(rng.choice([0, 1, 1, 2, 3]) for _ in range(n)),)
+    if kind == "repeat_interleave":
+        d = rng.randrange(-n, n)
+        return kind, [spec], (rng.choice([0, 1, 2, 3]), rng.choice([d, d, None]))
+    if kind == "gather":
+        d = rng.randrange(-n, n)
+        dd = d + n if d < 0 else d
+        ishape = list(bs); ishape[dd] = rng.choice([0, 1, 2, 3])
+        hi = bs[dd]
+        if hi == 0:
+            ishape[dd] = 0
+        index = torch.tensor([rng.randrange(hi) if hi else 0 for _ in range(numel(ishape))], dtype=torch.int64).reshape(ishape)
+        return kind, [spec], (d, index)
+    if kind == "masked_select":
+        mask = torch.tensor([rng.random() < 0.5 for _ in range(numel(bs))], dtype=torch.bool).reshape(bs)
+        return kind, [spec], (mask,)
+    k = rng.choice([1, 2, 2, 3, 4])
+    if kind in ("stack", "stack_out"):
+        d = rng.randint(-n - 1, n)
+        return kind, [spec] * k, (d,)
+    d = rng.randrange(-n, n)
+    dd = d + n if d < 0 else d
+    specs = [resize_dim(spec, dd, rng.choice([0, 1, 2, 3])) for _ in range(k)]
+    return kind, specs, (d,)
+
+
+def ext_names(kind, names, n, args):
+    if kind in ("repeat", "repeat_interleave", "gather", "cat", "cat_out"):
+        if kind == "repeat_interleave" and args[1] is None and n > 1:
+            return None
+        return list(names)
+    if kind in ("stack", "stack_out"):
+        d = args[0] + n + 1 if args[0] < 0 else args[0]
+        return list(names[:d]) + [None] + list(names[d:])
+    return None
+
+
+def oracle_ext(run, kind, specs, args, site="shape_op_ext"):
+    n = len(specs[0][1])
+    tds = [build_offset(s, 100000 * i) for i, s in enumerate(specs)]
+    idxs = [torch.arange(numel(s[1]), dtype=torch.int64).reshape(s[1]) for s in specs]
+    case = {"kind": kind, "tds": [spec_sx(s) for s in specs], "args": [a.tolist() if isinstance(a, torch.Tensor) else a for a in args]}
+    run.count("ext.kind", kind)
+
+    def go(objs, use_out=False):
+        x = objs[0]
+        if kind == "repeat":
+            if isinstance(x, torch.Tensor) and not args[0]:
+                return x.repeat(())
+            return x.repeat(*args[0])
+        if kind == "repeat_interleave":
+            return x.repeat_interleave(args[0], dim=args[1]) if args[1] is not None else x.repeat_interleave(args[0])
+        if kind == "gather":
+            return x.gather(args[0], args[1])
+        if kind == "masked_select":
+            return x.masked_select(args[0]) if not isinstance(x, torch.Tensor) else x[args[0]]
+        f = torch.stack if kind.startswith("stack") else torch.cat
+        if use_out:
+            out = f(list(objs), args[0]).clone()
+            if not isinstance(out, torch.Tensor):
+                out.apply_(lambda t: t.zero_())
+            r = f(list(objs), args[0], out=out)
+            return out if r is None else r
+        return f(list(objs), args[0])
+    try:
+        ref = go(idxs)
+        terr = None
+    except Exception as e:  # noqa: BLE001
+        ref, terr = None, e
+    try:
+        with time_limit(5.0):
+            res = go(tds, use_out=kind.endswith("_out"))
+        ierr = None
+    except Exception as e:  # noqa: BLE001
+        res, ierr = None, e
+    if ierr is not None:
+        if terr is None:
+            if kind == "gather" and args[1].numel() == 0:
+                run.count("ext.stricter_rejection", "gather with an empty index ('Cannot use torch.gather with an empty index')")
+                run.oracle_ok(site)
+                return
+            run.oracle_fail(site, case, f"tensordict raises {type(ierr).__name__}: {str(ierr)[:120]} but torch accepts", f"{kind}:rejects-torch-accepts:{type(ierr).__name__}")
+            return
+        run.oracle_ok(site)
+        return
+    if terr is not None:
+        run.oracle_fail(site, case, f"tensordict accepts but torch raises {type(terr).__name__}: {str(terr)[:100]}", f"{kind}:accepts-torch-rejects")
+        return
+    if tuple(res.batch_size) != tuple(ref.shape):
+        run.oracle_fail(site, case, f"batch_size {tuple(res.batch_size)} but torch gives {tuple(ref.shape)}", f"{kind}:batch")
+        return
+    names = specs[0][2] if specs[0][2] is not None else [None] * n
+    want = ext_names(kind, names, n, args)
+    if not names_ok(res.names, want):
+        run.oracle_fail(site, case, f"names {list(res.names)} expected {want}", f"{kind}:names")
+        return
+    got_keys = sorted((k,) if isinstance(k, str) else tuple(k) for k in res.keys(True, False))
+    if got_keys != spec_keys(specs[0]):
+        run.oracle_fail(site, case, f"keys {got_keys} expected {spec_keys(specs[0])}", f"{kind}:keys")
+        return
+    bad = check_ext_entries(res, specs, n, kind, args, ref, ())
+    if bad:
+        run.oracle_fail(site, case, bad, f"{kind}:{bad.split(' ')[0]}")
+        return
+    run.oracle_ok(site)
+
+
+def check_ext_entries(res, specs, n, kind, args, ref, prefix):
+    multi = kind in ("stack", "cat", "stack_out", "cat_out")
+    for j, (k, e) in enumerate(specs[0][3]):
+        v = res.get(k)
+        es = [s[3][j][1] for s in specs]
+        if e[0] == "leaf":
+            srcs = [torch.arange(numel(x[1]), dtype=torch.int64).reshape(x[1]) + 100000 * i for i, x in enumerate(es)]
+            if multi:
+                d = args[0]
+                dn = (d + n + 1 if d < 0 else d) if kind.startswith("stack") else (d + n if d < 0 else d)
+                want = (torch.stack if kind.startswith("stack") else torch.cat)(srcs, dn)
+            else:
+                shape = e[1]
+                want = srcs[0].reshape((numel(shape[:n]),) + tuple(shape[n:]))[ref]
+            if tuple(v.shape) != tuple(want.shape):
+                return f"leaf-shape {prefix + (k,)}: {tuple(v.shape)} expected {tuple(want.shape)}"
+            if not torch.equal(v, want):
+                return f"leaf-values {prefix + (k,)} differ from torch applied to the batch dims"
+        else:
+            ext = e[1][n:]
+            if tuple(v.batch_size) != tuple(ref.shape) + tuple(ext):
+                return f"nested-batch {prefix + (k,)}: {tuple(v.batch_size)} expected {tuple(ref.shape) + tuple(ext)}"
+            bad = check_ext_entries(v, es, n, kind, args, ref, prefix + (k,))
+            if bad:
+                return bad
+    return None
